@@ -1,5 +1,159 @@
 import FGVerif.Driver.Shared
-/-! driver operations for C16 (stub: replaced by the property's own driver) -/
+import FGVerif.Model.C16
+/-!
+  driver operations for C16
+
+  `(C16 apply <g> <rc> <matches> <hashes> <n|_> <unique> <connected> [<impl>])`
+      g, rc    wire graphs (`common.enc_graph`); rc labels are pairs (a scalar `b` counts as `(b b)`)
+      matches  `(((gnode rulenode) …) …)`  VF2's mappings in VF2's order (dict order inside)
+      hashes   `(s:<hex> …)` one per mapping: networkx's 3-round WL hash of the ITS graph the
+               specification prescribes for that mapping (built in Python by the harness)
+      impl     `((<its> …) <g after the call>)` or `(raised <Kind>)`,
+               its := `(((id sym) …) ((u v left right) …))` nodes sorted, edges u ≤ v sorted,
+               the list sorted by its rendering
+    reply `(ok ((<its> …) <g>) spec_model spec_impl contract_ok clause #monos #matches)`
+
+  `(C16 rcgraph <L> <C> <R> [<impl>])`  reply `(ok <its>|(raised K) 1 spec_impl)`
+-/
 namespace C16
-def handle : List SExp → Option SExp := fun _ => none
+open SExp
+
+def insertBy {α : Type} (le : α → α → Bool) (x : α) : List α → List α
+  | [] => [x]
+  | y :: ys => if le x y then x :: y :: ys else y :: insertBy le x ys
+
+def isort {α : Type} (le : α → α → Bool) (l : List α) : List α := l.foldr (insertBy le) []
+
+def labelPair : Label → Option (Int × Int)
+  | .p g h => some (g, h)
+  | .s o => some (o, o)
+  | .nil => none
+
+def labelScalar : Label → Option Int
+  | .s o => some o
+  | _ => none
+
+def nodesOf (G : Graph) : Option (List (Int × String)) :=
+  G.nodes.mapM fun n => n.2.symbol.map fun s => (n.1, s)
+
+def toMol (G : Graph) : Option MolGraph := do
+  let ns ← nodesOf G
+  let es ← G.edges.mapM fun e => (labelScalar e.2.2.2).map fun b => (e.1, e.2.1, b)
+  pure ⟨ns, es⟩
+
+def toIts (G : Graph) : Option ITSGraph := do
+  let ns ← nodesOf G
+  let es ← G.edges.mapM fun e => (labelPair e.2.2.2).map fun b => (e.1, e.2.1, b)
+  pure ⟨ns, es⟩
+
+/-- canonical edge list: end points ordered, list sorted -/
+def canonEdges (es : List (E (Int × Int))) : List (E (Int × Int)) :=
+  isort (fun a b => a.1 < b.1 || (a.1 == b.1 && a.2.1 ≤ b.2.1))
+    (es.map fun e => if e.1 ≤ e.2.1 then e else (e.2.1, e.1, e.2.2))
+
+def ofItsNodes (ns : List (Int × Option String)) : SExp :=
+  ofList (fun (n : Int × Option String) => .list [ofInt n.1, ofOpt ofStr n.2])
+    (isort (fun a b => a.1 ≤ b.1) ns)
+
+def ofItsEdges (es : List (E (Int × Int))) : SExp :=
+  ofList (fun (e : E (Int × Int)) => .list [ofInt e.1, ofInt e.2.1, ofInt e.2.2.1, ofInt e.2.2.2])
+    (canonEdges es)
+
+def ofIts (g : ITSGraph) : SExp :=
+  .list [ofItsNodes (g.nodes.map fun n => (n.1, some n.2)), ofItsEdges g.edges]
+
+def asIts : SExp → Option ITSGraph
+  | .list [ns, es] => do
+      let ns ← asList (asPair asInt asStr) ns
+      let es ← asList (fun x => match x with
+        | .list [u, v, a, b] => do pure ((← asInt u), (← asInt v), ((← asInt a), (← asInt b)))
+        | _ => none) es
+      pure ⟨ns, es⟩
+  | _ => none
+
+/-- the wire form of a result lists its nodes sorted by id; node order is not observable, so a
+    result with `g`'s node set is given `g`'s node order back before the specification reads it -/
+def restoreOrder (g : MolGraph) (its : ITSGraph) : ITSGraph :=
+  let le := fun (a b : Int × String) => a.1 < b.1 || (a.1 == b.1 && decide (a.2 ≤ b.2))
+  if isort le its.nodes == isort le g.nodes then { its with nodes := g.nodes } else its
+
+def sortRendered (l : List SExp) : List SExp := isort (fun a b => decide (render a ≤ render b)) l
+
+def isRaised : SExp → Bool
+  | .list [.atom "raised", _] => true
+  | _ => false
+
+def handleApply (gx rcx msx hsx nx ux cx : SExp) (rest : List SExp) : Option SExp := do
+  let g ← toMol (← asGraph gx)
+  let rc ← toIts (← asGraph rcx)
+  let ms ← asList (asList (asPair asInt asInt)) msx
+  let hs ← asList asStr hsx
+  let n ← asOpt asNat nx
+  let unique ← asBool ux
+  let conn ← asBool cx
+  if hs.length != ms.length then none
+  let rule := mkRule rc
+  let table := ms.zip hs
+  let wl : ITSGraph → Hash := fun its =>
+    match table.find? (fun p => isExpectedB g rc p.1 its) with
+    | some p => p.2
+    | none => "?"
+  let contract := contractOk g rule.l ms
+  let model := applyRule wl g rule ms n unique conn
+  let enc := fun (rs : List ITSGraph) (gAfter : SExp) => SExp.list [.list (sortRendered (rs.map ofIts)), gAfter]
+  let clauseModel := specClause wl g rc n unique conn model
+  let (specImpl, clause) ← match rest with
+    | [impl] =>
+        if isRaised impl then pure (ofBool false, "raised")
+        else match impl with
+          | .list [rs, gAfter] => do
+              let rs := (← asList asIts rs).map (restoreOrder g)
+              if !(gAfter == gx) then pure (ofBool false, "input_untouched")
+              else
+                match specClause wl g rc n unique conn rs with
+                | some c => pure (ofBool false, c)
+                | none => pure (ofBool true, "-")
+          | _ => none
+    | _ => pure (none', "-")
+  pure (.list [.atom "ok", enc model gx, ofBool clauseModel.isNone, specImpl, ofBool contract,
+               .atom clause, ofNat (monos g rule.l).length, ofNat ms.length])
+
+/-! ### `to_rc_graph` -/
+
+def ofRcOut (o : RcOut) : SExp := .list [ofItsNodes o.nodes, ofItsEdges o.edges]
+
+def handleRc (lx cx rx : SExp) (rest : List SExp) : Option SExp := do
+  let l ← toMol (← asGraph lx)
+  let c ← toMol (← asGraph cx)
+  let r ← toMol (← asGraph rx)
+  let model := toRcGraph l c r
+  let encModel : SExp := match model with
+    | .ok o => ofRcOut o
+    | .error .assertion => .list [.atom "raised", .atom "Assertion"]
+    | .error .valueError => .list [.atom "raised", .atom "ValueError"]
+  let specImpl ← match rest with
+    | [impl] =>
+        match model with
+        | .error _ => pure (ofBool (impl == encModel))   -- the call must refuse, the same way
+        | .ok _ =>
+          if isRaised impl then pure (ofBool false)
+          else match impl with
+            | .list [ns, es] => do
+                let ns ← asList (asPair asInt (asOpt asStr)) ns
+                let es ← asList (fun x => match x with
+                  | .list [u, v, a, b] => do pure ((← asInt u), (← asInt v), ((← asInt a), (← asInt b)))
+                  | _ => none) es
+                pure (ofBool (rcSpecB l c r ns es))
+            | _ => none
+    | _ => pure none'
+  let specModel := match model with
+    | .ok o => rcSpecB l c r o.nodes o.edges
+    | .error _ => true
+  pure (.list [.atom "ok", encModel, ofBool specModel, specImpl])
+
+def handle : List SExp → Option SExp
+  | .atom "apply" :: g :: rc :: ms :: hs :: n :: u :: c :: rest => handleApply g rc ms hs n u c rest
+  | .atom "rcgraph" :: l :: c :: r :: rest => handleRc l c r rest
+  | _ => none
+
 end C16
